@@ -310,3 +310,59 @@ func VerifHarness_C06_O4() {
 	s.fairPhaseAndCheck([]int{0, 1, 2}, 12)
 	verifReach("end")
 }
+
+// C06/O6 — an unusual payload while the network is idle: after a warm-up and a
+// quiet period that reaches the idle state, one validator accepts a ZERO-LENGTH
+// transaction (optionally together with an ordinary one).  Fair gossip among
+// all four (or among three, the fourth silent) follows: the empty transaction
+// is committed exactly once by every live node and the nodes return to idle.
+func VerifHarness_C06_O6() {
+	s := verifNewSys(4)
+	for st := 0; st < 8; st++ {
+		to := st % 4
+		from := (to + 1 + (st/4)%3) % 4
+		if err := s.pull(from, to, -1); err != nil {
+			panic(fmt.Sprintf("warm-up step %d: %v", st, err))
+		}
+	}
+	for c := 0; c < 12; c++ {
+		for to := 0; to < 4; to++ {
+			for from := 0; from < 4; from++ {
+				if from != to {
+					if err := s.pullTx(from, to, -1, false); err != nil {
+						panic(fmt.Sprintf("quiet cycle %d (%d<-%d): %v", c, to, from, err))
+					}
+				}
+			}
+		}
+	}
+	for _, nd := range s.nodes {
+		if nd.c.busy() {
+			verifAssume(false) // the quiet period did not reach the idle state within the bound
+		}
+	}
+	a := verifChoice("acceptingValidator", 2)
+	txs := [][]byte{{}}
+	if verifChoice("withAnOrdinaryTransaction", 2) == 1 {
+		txs = append(txs, []byte{byte(a), byte(s.txSeq[a])})
+		s.txSeq[a]++
+	}
+	s.nodes[a].c.addTransactions(txs)
+	live := []int{0, 1, 2, 3}
+	if verifChoice("validator3Silent", 2) == 1 {
+		live = []int{0, 1, 2}
+	}
+	s.fairPhaseAndCheck(live, 12)
+	for _, i := range live {
+		n := 0
+		for _, b := range s.nodes[i].blocks {
+			for _, tx := range b.Transactions() {
+				if len(tx) == 0 {
+					n++
+				}
+			}
+		}
+		verifAssert("zero-length-transaction-committed-exactly-once-by-every-live-node", n == 1)
+	}
+	verifReach("end")
+}
